@@ -15,15 +15,18 @@ CLAIMS = {
                 text="Each of the 6 secret-holding types has a Drop that zeroizes every non-public field on all normal paths; every hand-written Zeroize impl writes every field and points reset to identity constants; "
                      "every scalar-derived heap local found by taint in constant-time multiscalar multiplication and Scalar::batch_invert (3 today) is a single-allocation Vec, Zeroizing from construction or explicitly zeroized on every normal path before release, with no re-allocating operation; the single-allocation premise is itself checked: the constant-time entry point reaches Straus only after establishing that the scalar iterator's size hint is exact",
                 note="source-level; zeroize's volatile semantics, exact-size collect not reallocating, and unwind paths (noted, not claimed) are outside", ref="3.7, 4 C14"),
-    "C03": dict(cat="other", tech="flag dominance, call-identity data flow, field-wise completeness (FIELDSET) over resolved MIR; visibility facts",
-                text="Structural clauses: decoder = sqrt_ratio_i(y^2-1, d*y^2+1) with its flag deciding Some, sign from input bit 255, T=X*Y after negation; encoder = as_bytes(Y/Z) with is_negative(X/Z) in bit 255; "
+    "C03": dict(cat="other", tech="abstract interpretation of the curve formulas' MIR in the FORMULA domain (rational functions over Z in symbolic coordinates, lib/eng_formula.py) + flag dominance, call-identity data flow, field-wise completeness (FIELDSET) over resolved MIR; visibility facts",
+                text="Formulas (FORMULA domain, field kernels = ring operations, never entered): ProjectivePoint::double, EdwardsPoint +- ProjectiveNiels / AffineNiels, the completed / projective / extended conversions, as_projective_niels, as_affine_niels, negations, identity elements, "
+                     "EdwardsPoint double / add / sub / neg, and the AVX2 ExtendedPoint double / +- CachedPoint, CachedPoint::from, -CachedPoint, conversions and identity constants (lane-wise) all denote the point given by the twisted Edwards addition law as rational identities "
+                     "(doubling modulo the curve equation) with X*Y = Z*T; compress encodes Y/Z with the sign of X/Z; decompress calls sqrt_ratio_i(y^2-1, d y^2+1) and returns (+-r, y, 1, xy) by bit 255. "
+                     "Structural clauses: decoder = sqrt_ratio_i(y^2-1, d*y^2+1) with its flag deciding Some, sign from input bit 255, T=X*Y after negation; encoder = as_bytes(Y/Z) with is_negative(X/Z) in bit 255; "
                      "projective equality shape; every field-wise writer/selector of an EdwardsPoint touches all four coordinates consistently; identity/neg/cofactor/small-order/torsion-free wiring; coordinates and internal modules not public. "
-                     "The group law (formula completeness, exceptional points) is NOT decided",
-                note="partial: necessary structural conditions in every backend; algebra of the formulas is value-level", ref="3.6, 4 C03"),
+                     "NOT decided: that the field kernels implement the ring operations (C01/C11), completeness of the addition law on this curve (cited theorem), the IFMA vector formulas, equality semantics beyond its shape",
+                note="formulas decided at the level of field elements; structural conditions in every backend", ref="10.6 FORMULA, 3.6, 4 C03"),
     "C07": dict(cat="other", tech="known-bits abstract interpretation of clamp_integer (complete) + polynomial-multiple abstract domain over the Montgomery ladder (LADDER) + PATH rules over resolved MIR",
                 text="clamp_integer is bit-exactly RFC 7748 clamping (decided completely); all clamped entry points multiply by Scalar{clamp(input)}; x25519-dalek reaches multiplications only through mul_clamped/mul_base_clamped with the documented shapes; "
                      "ladder: in the LADDER abstract domain (points = multilinear-polynomial multiples of the base point over the symbolic scalar bits; conditional_swap and differential_add_and_double by their documented contracts, the latter's precondition Q-P = +-base checked at each of the 255 steps) mul_bits_be and &MontgomeryPoint * &Scalar evaluate to (sum_{j<255} 2^j b_j) * P, independently of the loop's syntax; to_edwards rejects decoded u=-1 before inverting and puts sign in bit 255; Montgomery eq/hash canonicalise; contributory = !identity; key conversions. Ladder-step and map arithmetic are not decided",
-                note="partial/structural except clamp_integer (complete)", ref="3.2 known-bits, 3.6, 4 C07"),
+                note="partial/structural except clamp_integer (complete), the ladder (LADDER) and C07.formula: differential_add_and_double = (x(2P), x(P+Q)) by Montgomery's formulas, to_montgomery encodes (1+y)/(1-y), to_edwards decodes (u-1)/(u+1), as rational identities (FORMULA domain)", ref="3.2 known-bits, 3.6, 4 C07, 10.6"),
     "C08": dict(cat="other", tech="ORDER of digest updates per hash session on every CFG path + call-identity data flow + dominance (PATH engine)",
                 text="raw_sign / raw_sign_prehashed: r = H([dom2(1,ctx)] prefix||M), R = compress(mul_base(r)), k = H([dom2] R||A||M), s = k*a + r, signature (R,s); context > 255 rejected before hashing (and in Context::new); "
                      "expansion = from_bytes(SHA-512(seed)) with scalar = reduce(clamp(bytes[0..32])), prefix = bytes[32..64]; SigningKey only assembled with the verifying key derived from the same seed; sign wiring uses the key's own seed and verifying key; "
@@ -49,7 +52,7 @@ CLAIMS = {
                 text="Decides necessary conditions only, NOT exactness of the limb kernels (value-level; stated as not decided): invert = x^(p-2), pow_p58 = x^((p-5)/8), pow22501 = (x^(2^250-1), x^11), sqrt_ratio_i forms the candidate root "
                      "u^((p+3)/8) v^(3+7(p-5)/8) and the check value v r^2 (monomial domain over the MIR of the chains, kernels abstracted by their algebraic meaning); every literal limb vector added before a reduce (sub, sub_assign, negate; u64 and u32) is a multiple of p; "
                      "from_bytes yields limbs within nominal width (bit 255 dropped, value < 2^255) and as_bytes clears the top bit for every admissible representation (intervals); in the limb kernels and repacking code (serial u64/u32 and AVX2 field) every low-bit mask that can drop bits has its carry companion `>> k` of the same value (no silent truncation). Absence of wrap-around in every field kernel is C11's",
-                note="partial; vector (AVX2/IFMA) field and fiat primitives not analysed; kernels' products are trusted here", ref="10.6"),
+                note="partial; vector (AVX2/IFMA) field and fiat primitives not analysed; kernels' products are trusted here. Added: batch_invert decided in the FORMULA domain for every zero / non-zero pattern of 0..4 elements (non-zero inverted, zero kept, assertion unreachable)", ref="10.6"),
     "C02": dict(cat="other", tech="interval analysis with a magnitude contract at every montgomery_reduce call + monomial domain over the inversion chain + constructor / pack() inventory (ABSINT, EXPCHAIN, PATH)",
                 text="Decides necessary conditions only, NOT exactness of mul_internal / montgomery_reduce / add / sub (value-level; stated as not decided): every montgomery_reduce call reachable from the public Scalar API receives a value < l*R "
                      "(so its single conditional subtraction is canonical), u64 and u32; the inversion chain raises to l-2; every raw construction Scalar{bytes} in the three crates is of a reviewed kind and every pack() receives the output of a reducing kernel; "
@@ -76,14 +79,21 @@ CLAIMS = {
                 text="Every success exit of every verification entry point (discovered, 14) is dominated by: canonical-S conversion, byte comparison of recompute_R with the signature's R, and for strict the R-decoding and both small-order rejections; "
                      "recompute_R/compute_challenge wiring and hash order incl. dom2 prefix; legacy rule (mask 224 on the input byte 31) only under legacy_compatibility; VerifyingKey point/compressed invariant. Structural: the value-level correctness of the double-base multiplication is C04's",
                 note="decides the acceptance *structure*, not arithmetic; refactors that move a check into a new helper with argument predicates fail closed (documented)", ref="3.6, 4 C09"),
-    "C06": dict(cat="other", tech="flag-to-decision dominance over Choice implications + data-dependence (PATH engine)",
-                text="Structural clauses: all five rejection flags of the ristretto decoder test the value they must test and reach the None / CtOption decision (both decoders); encoders emit as_bytes of the sign-normalised value; "
-                     "one-way map reads both halves; equality is the two-product coset test; RistrettoPoint constructors inventory (no unvalidated wrap); field not public. Value-level RFC 9496 conformance is not decided",
-                note="partial: decides necessary structural conditions in every backend configuration; formulas' algebra is out of reach of static analysis here", ref="3.6, 4 C06"),
-    "C13": dict(cat="other", tech="dominance, happens-before reachability, iterator-pipeline structure matching on MIR (PATH engine)",
-                text="verify_batch: Ok dominated by length equality (connectivity of compared pairs), per-entry canonical-S conversion over the whole slice, Some of the multiscalar result, identity test; every transcript append happens before build_rng "
-                     "and none is lazy; hram closure hashes R_i||A_i||M_i with one index; RNG = transcript + inert ZeroRng, no entropy call; scalar chain pairs with point chain. Agreement with single verification on values is not decided",
-                note="partial/structural; tied to the iterator-chain shape of verify_batch (fails closed on a rewrite)", ref="3.6, 4 C13"),
+    "C06": dict(cat="other", tech="abstract interpretation of the ristretto255 formulas in the FORMULA domain (rational functions over Z, one run per sign scenario, inverse square roots opaque) + flag-to-decision dominance over Choice implications + data-dependence (PATH engine)",
+                text="Formulas (C06.formula, 14 scenarios per backend): decode computes x = |2 s Dx|, y = u1 Dy, (x, y, 1, xy) with I = invsqrt(v u2^2), v = -d u1^2 - u2^2, u1 = 1 - s^2, u2 = 1 + s^2; encode takes invsqrt(u1 u2^2), tests the signs of T z_inv, x z_inv and s and emits |den_inv (Z - y)| with the RFC 9496 rotation "
+                     "(i X, i Y, i1 / sqrt(a - d)) in all eight sign scenarios; the element-derivation map calls sqrt_ratio_i((r+1)(1-d^2), (-1-dr)(r+d)) and returns (2sD/(N_t sqrt(ad-1)), (1-s^2)/(1+s^2)) with the RFC's choice of s and c in all three scenarios; equality compares X1Y2 with Y1X2 and X1X2 with Y1Y2. "
+                     "Structural clauses: all five rejection flags of the ristretto decoder test the value they must test and reach the None / CtOption decision (both decoders); encoders emit as_bytes of the sign-normalised value; "
+                     "one-way map reads both halves; equality is the two-product coset test; RistrettoPoint constructors inventory (no unvalidated wrap); field not public. NOT decided: that the RFC's formulas realise a prime-order group (Decaf / RFC 9496 theorem), "
+                     "sqrt_ratio_i's contract (C01 CHAIN decides its exponent), the field kernels (C01 / C11), double_and_compress_batch's formulas",
+                note="formula-level conformance with RFC 9496 decided per sign scenario; structural conditions in every backend configuration", ref="10.6 FORMULA, 3.6, 4 C06"),
+    "C13": dict(cat="other", tech="abstract interpretation of verify_batch's MIR in the BATCHEQ domain (scalar polynomials / polynomial combinations of points over symbolic batches of 0..5 entries, lib/eng_batcheq.py) "
+                                   "+ dominance, happens-before reachability and pipeline structure matching (PATH engine) as the fallback when a value leaves the domain",
+                text="verify_batch on symbolic batches (n = 0, 1, 2, 3, 5; signature = 64 symbolic bytes, key = 32 symbolic bytes + point, opaque messages): the value tested against the identity is exactly "
+                     "sum z_i R_i + sum z_i H(R_i||A_i||m_i) A_i - (sum z_i s_i) B with R_i = decompress(sig_i[0..32]), s_i = canonical scalar of sig_i[32..64], pairwise distinct z_i; every z_i is 16 bytes drawn from the RNG of a "
+                     "transcript that has already absorbed every H(R_i||A_i||m_i) and every S half; mismatched lengths, a failing canonical-S decoding of any entry, an undecodable R of any entry and a non-identity result each yield Err only; "
+                     "Ok is reachable. RNG = transcript + inert ZeroRng, no entropy call (PATH). Assumed, decided elsewhere: optional_multiscalar_mul = sum s_i P_i (C04), single verification (C09). "
+                     "Not decided: the probabilistic soundness argument of random linear combination; batches of more than 5 entries are covered by the uniformity of the code in n, not enumerated",
+                note="semantic for the batch equation / binding / rejection clauses (independent of iterator-vs-loop shape); the shape-dependent PATH rules remain as explanation and as fail-closed fallback", ref="10.6 C13, 3.6"),
     "C16": dict(cat="other", tech="dominance + data-dependence over every serde Visitor/Serialize/Deserialize impl discovered from the impl table (PATH engine)",
                 text="Every hand-written visitor of a validated type returns Ok only through the native validating decoder applied to the 32 elements read (loop-completion dominance, missing element => error, ed25519 trailing elements rejected); "
                      "no reducing/clamping constructor or raw aggregate; Serialize emits the canonical encoder's bytes with matching tuple length 32; StaticSecret path never clamps. Format-level round trips are not decided",
@@ -111,6 +121,8 @@ m = {
         {"name": "EXPCHAIN", "path": "lib/eng_expchain.py", "serves_properties": ["C01", "C02"], "kind_free_text": "monomial abstract domain (exponent vectors) over the addition chains, on the generic MIR interpreter"},
         {"name": "LINCOMB", "path": "lib/eng_lincomb.py", "serves_properties": ["C04"], "kind_free_text": "formal linear combinations (coefficient x symbolic digit x symbolic point) on the generic MIR interpreter"},
         {"name": "LADDER", "path": "lib/eng_ladder.py", "serves_properties": ["C07"], "kind_free_text": "multilinear-polynomial multiples of the base point over symbolic scalar bits, on the generic MIR interpreter"},
+        {"name": "FORMULA", "path": "lib/eng_formula.py lib/formula_rules.py", "serves_properties": ["C03", "C06", "C07", "C01"], "kind_free_text": "rational functions over Z in symbolic coordinates with ring transfer functions for the field kernels, lane-wise for AVX2; identities by polynomial normalisation (modulo the curve equation for doubling)"},
+        {"name": "BATCHEQ", "path": "lib/eng_batcheq.py", "serves_properties": ["C13"], "kind_free_text": "scalar polynomials and polynomial combinations of points over symbolic batches, on the generic MIR interpreter"},
         {"name": "PATH", "path": "lib/mirlib.py lib/pathlib2.py lib/ex.py", "serves_properties": [p for p in ["C03", "C06", "C07", "C08", "C09", "C13", "C16", "C17"] if p in CLAIMS],
          "kind_free_text": "dominance (edge-removal reachability), value-flow slices, expression trees, ORDER, guard implication"},
     ],
